@@ -895,7 +895,10 @@ class Dict(dict, base.Symbolic, pg_typing.CustomTyping):
         # NOTE(daiyip): The key values of frozen field can safely be excluded
         # since they will be the same for a class.
         field = self._value_spec.schema[key_spec]
-        if hide_frozen and field.frozen:
+        if (hide_frozen and field.frozen
+            and isinstance(key_spec, pg_typing.ConstStrKey)):
+          # NOTE: for non-const keys, the keys themselves are not implied by
+          # the schema, thus they cannot be dropped.
           continue
         for key in keys:
           if key not in exclude_keys:
